@@ -334,7 +334,13 @@ pub fn gen_plan(seed: u64, prof: &Profile) -> Plan {
             cfg.cli_concurrency = Some(pick_limit(&mut r));
             cfg.builder_concurrency = BuilderLimit::Limit(pick_limit(&mut r));
         }
-        4 => cfg.builder_concurrency = BuilderLimit::Unlimited,
+        4 => {
+            cfg.builder_concurrency = BuilderLimit::Unlimited;
+            if r.chance(1, 2) {
+                // the CLI value must win over an unlimited builder setting
+                cfg.cli_concurrency = Some(pick_limit(&mut r));
+            }
+        }
         _ => cfg.cli_concurrency = Some(pick_limit(&mut r)),
     }
     if wide {
